@@ -830,7 +830,7 @@ class Filter:
 
     def __str__(self) -> str:
         if self.args:
-            return f"{self.name}: {''.join(str(arg) for arg in self.args)}"
+            return f"{self.name}: {', '.join(str(arg) for arg in self.args)}"
         return self.name
 
     def validate_filter_arguments(self, env: Environment) -> None:
